@@ -17,7 +17,7 @@ class TarSuite(Suite):
 
     def gen(self, rng, tier):
         from . import filt
-        n = {"quick": 300, "thorough": 8000, "search": 150}[tier]
+        n = {"quick": 900, "thorough": 8000, "search": 150}[tier]
         ops = []
         for _ in range(n):
             tree = gen.disk_tree(rng, rng.choice([6, 15, 35]), 4, types=("dir", "file", "symlink", "fifo", "chr", "blk", "hardlink"),
@@ -37,6 +37,14 @@ class TarSuite(Suite):
                 else:
                     sf["exclude"] = [hx(p) for p in filt.pattern_list(rng, paths, 0.3)]
                 op["sfilter"] = sf
+            hl = [e for e in tree if e["t"] == "hardlink"]
+            if "sfilter" not in op and hl and rng.random() < 0.5:
+                # two filters stacked: the inner one (no patterns) stats every entry, the outer one hides the FIRST name of a hard-link
+                # group: the next name becomes the file of the archive and must carry the bytes
+                op["sfilter"] = {}
+                op["sfilter2"] = {"exclude": [rng.choice(hl)["ln"]]}
+                if rng.random() < 0.7:
+                    op["src"]["kind"] = "disk"      # (the stats of an on-disk view come from the library's own lstat code)
             ops.append(op)
         return ops
 
@@ -49,6 +57,8 @@ class TarSuite(Suite):
                 m["extracted"] = i["extracted"]
             if "sfilter" in o:
                 m["sfilter"] = o["sfilter"]
+            if "sfilter2" in o:
+                m["sfilter2"] = o["sfilter2"]
             out.append(m)
         return out
 
